@@ -10,7 +10,7 @@ use serde_json::Value;
 use super::codec::{self, CodecCase, Drain, Method};
 use super::iovec_sm::{self, classify_range, with_quarantine, History, Mix, Profile};
 use super::stream_in::{self, CyclicReader, Delivery, StreamSpec};
-use super::{parse_case, PropDef};
+use super::{c06, parse_case, PropDef};
 use crate::engine::bytespec;
 use crate::engine::{self, CaseResult, Ctx, Fail, Outcome, Report, Tier};
 use crate::refimpl::hcobs_ref::{self, LIMIT_FIRST, LIMIT_LATER};
@@ -415,13 +415,22 @@ pub fn run(ctx: &Ctx, rep: &mut Report) {
     engine::drive(ctx, rep, "reader-kept-records", stream_case(8), cases, check_reader);
     let cases = ctx.share(ctx.tier.pick(1_500, 100_000));
     engine::drive(ctx, rep, "reader-kept-records-long", stream_case(60), cases, check_reader);
+    let cases = ctx.share(ctx.tier.pick(6_000, 200_000));
+    let aligned = (c06::aligned_case_strategy(), proptest::collection::vec(any::<u8>(), 0..6), 0u8..3).prop_map(|(c, drop_order, keep_every)| StreamCase {
+        stream: c.stream,
+        delivery: c.delivery,
+        drop_order,
+        keep_every,
+        nudges: c.nudges,
+    });
+    engine::drive(ctx, rep, "reader-block-aligned-tails", aligned, cases, check_reader);
 }
 
 fn replay(_ctx: &Ctx, group: &str, case: &Value) -> CaseResult {
     match group {
         "codec-anchored" | "codec-anchored-large" => check_codec(&parse_case::<CodecCase>(case)?),
         "chunker-held-chunks" => check_chunker(&parse_case::<StreamCase>(case)?),
-        "reader-kept-records" | "reader-kept-records-long" => check_reader(&parse_case::<StreamCase>(case)?),
+        "reader-kept-records" | "reader-kept-records-long" | "reader-block-aligned-tails" => check_reader(&parse_case::<StreamCase>(case)?),
         _ => check_history(&parse_case::<History>(case)?),
     }
 }
